@@ -45,6 +45,18 @@ func flatFact(g *gen.Gen) map[string]interface{} {
 
 func patFrom(g *gen.Gen, f map[string]interface{}) map[string]interface{} {
 	p := map[string]interface{}{}
+	if g.Intn(10) == 0 {
+		// a property variable (allowed as the only key): shared with other conjuncts it is bound there
+		for k, v := range f {
+			if _, isArr := v.([]interface{}); isArr || k > "b" {
+				continue
+			}
+			if g.Intn(2) == 0 {
+				return map[string]interface{}{qvars[g.Intn(3)]: v}
+			}
+			return map[string]interface{}{qvars[g.Intn(3)]: qvars[g.Intn(3)]}
+		}
+	}
 	for k, v := range f {
 		if g.Intn(4) == 0 && len(p) > 0 {
 			continue
@@ -153,6 +165,31 @@ func leafRepeated(q ref.Q) bool {
 	return false
 }
 
+// hasPropVar: some pattern leaf of the query has a variable in key position.
+func hasPropVar(q ref.Q) bool {
+	if p, ok := q["pattern"].(map[string]interface{}); ok {
+		for k := range p {
+			if ref.IsVar(k) {
+				return true
+			}
+		}
+		return false
+	}
+	for _, k := range []string{"and", "or"} {
+		if a, ok := q[k].([]interface{}); ok {
+			for _, s := range a {
+				if hasPropVar(s.(ref.Q)) {
+					return true
+				}
+			}
+		}
+	}
+	if n, ok := q["not"].(ref.Q); ok {
+		return hasPropVar(n)
+	}
+	return false
+}
+
 func toB(bss []core.Bindings) []ref.B {
 	out := make([]ref.B, len(bss))
 	for i, b := range bss {
@@ -161,9 +198,71 @@ func toB(bss []core.Bindings) []ref.B {
 	return out
 }
 
+// directed: a variable bound by an earlier conjunct and used in key position by a later one.
+func directed(r *rep.Report) {
+	type dc struct {
+		facts []map[string]interface{}
+		q     ref.Q
+	}
+	P := func(kv ...interface{}) map[string]interface{} {
+		m := map[string]interface{}{}
+		for i := 0; i+1 < len(kv); i += 2 {
+			m[kv[i].(string)] = ref.Norm(kv[i+1])
+		}
+		return m
+	}
+	and := func(ps ...map[string]interface{}) ref.Q {
+		subs := []interface{}{}
+		for _, p := range ps {
+			subs = append(subs, ref.Q{"pattern": p})
+		}
+		return ref.Q{"and": subs}
+	}
+	cases := []dc{
+		{[]map[string]interface{}{P("name", "color"), P("size", "red")}, and(P("name", "?p"), P("?p", "red"))},
+		{[]map[string]interface{}{P("name", "color"), P("color", "red", "size", "big")}, and(P("name", "?p"), P("?p", "red"))},
+		{[]map[string]interface{}{P("name", "size"), P("color", "red", "size", "red")}, and(P("name", "?p"), P("?p", "red"))},
+		{[]map[string]interface{}{P("name", "color", "is", "red"), P("color", "red"), P("size", "red")}, and(P("name", "?p", "is", "?v"), P("?p", "?v"))},
+		{[]map[string]interface{}{P("name", "color"), P("color", "red", "size", "big")}, and(P("name", "?p"), P("?p", "?v"))},
+	}
+	for ci, c := range cases {
+		for _, kind := range drv.Kinds {
+			loc, err := drv.NewLoc("D", kind, drv.MustMem())
+			if err != nil {
+				continue
+			}
+			for i, f := range c.facts {
+				loc.AddFact(drv.Ctx(), fmt.Sprintf("d%d", i), core.Map(ref.CloneMap(f)))
+			}
+			js, _ := json.Marshal(c.q)
+			want := ref.Multiset(ref.Eval(c.q, c.facts, []ref.B{{}}))
+			r.Case(true, fmt.Sprint("directed", ci, kind))
+			r.Count("directed_key_position_cases", 1)
+			qr, err := loc.Query(drv.Ctx(), string(js))
+			wit := rep.J{"state": kind, "facts": c.facts, "query": c.q, "want": want, "error": drv.ErrStr(err)}
+			if err != nil {
+				if strings.Contains(err.Error(), "No terms given") {
+					r.Violate("c03.zero-term-pattern", "query aborted by the zero-term refusal of indexed state (see c02.zero-term-pattern)", wit)
+					continue
+				}
+				r.Violate("", "Query failed: "+err.Error(), wit)
+				continue
+			}
+			got := ref.Multiset(toB(qr.Bss))
+			wit["got"] = got
+			if !ref.SameSet(got, want) {
+				r.Violate("", "a variable bound by an earlier conjunct is not respected where a later pattern uses it as a key", wit)
+			}
+		}
+	}
+}
+
 func main() {
 	e := rep.GetEnv()
 	r := rep.New(e)
+	if e.Batch == 0 {
+		directed(r)
+	}
 	nSets := e.Pick(500, 5000)
 	for si := 0; si < nSets; si++ {
 		g := gen.New(e.BatchSeed()*86028121 + int64(si))
@@ -244,7 +343,8 @@ func main() {
 			if nontrivial && len(want) > 0 && r.WantSample() {
 				r.Sample(rep.J{"state": kind, "facts": facts, "query": q, "bindings": want})
 			}
-			if k%2 == 0 {
+			if k%2 == 0 && !hasPropVar(q) {
+				// (a property variable would also meet the observing rule itself, which is a fact of the location)
 				condition(r, loc, q, want, wit)
 			}
 		}
